@@ -18,6 +18,13 @@ WORDS = ["alpha", "bravo", "dry_run", "level2", "out_dir", "jobs", "verbose_mode
 VARIANTS = ["Alpha", "DryRun", "Level2", "OutDir", "Jobs", "VerboseMode", "Input", "NoColor",
             "TargetDir", "Kilo", "Lima", "MikeNovember"]
 LETTERS = "abcdefgijklmnopqrstuwxyz"
+# Rust keywords usable as raw identifiers: `r#type: T` is the option `--type` / `-t`
+RAW = ["type", "loop", "match", "move", "where"]
+
+
+def rid(name):
+    """identifier as written in Rust source"""
+    return "r#" + name if name in RAW else name
 
 
 def kebab(ident):
@@ -48,11 +55,13 @@ class Names:
         self.used_short = set(["h", "V"])
         self.idents = set()
 
-    def ident(self):
+    def ident(self, allow_raw=True):
         for _ in range(100):
             w = self.rng.choice(WORDS)
             if self.rng.random() < 0.3:
                 w = w + str(self.rng.randint(1, 9))
+            elif allow_raw and self.rng.random() < 0.08:
+                w = self.rng.choice(RAW)
             if w not in self.idents and kebab(w) not in self.used_long:
                 self.idents.add(w)
                 return w
@@ -207,7 +216,7 @@ class Field:
         if self.name is None:
             out += "%s%s,\n" % (indent, self.rust_ty)
         else:
-            out += "%s%s: %s,\n" % (indent, self.name, self.rust_ty)
+            out += "%s%s: %s,\n" % (indent, rid(self.name), self.rust_ty)
         return out
 
     # ---- hand-written equivalent, following the documented rules
@@ -612,7 +621,7 @@ def gen_external(rng, names, ix):
     ty = "X%d" % ix
     # without an explicit function name the field name is the function name
     fn = "x%d" % ix
-    fname = fn if not explicit else names.ident()
+    fname = fn if not explicit else names.ident(allow_raw=False)
     return ExternalField(fname, ty, fn, vs, explicit)
 
 
@@ -684,7 +693,7 @@ def struct_src(t):
     m = "pub fn manual_%s() -> OptionParser<%s> {\n" % (t.fn, t.name)
     idents = []
     for i, f in enumerate(t.fields):
-        ident = f.name if f.name else "f%d" % i
+        ident = rid(f.name) if f.name else "f%d" % i
         idents.append(ident)
         m += "    let %s = %s;\n" % (ident, f.manual_src())
     if t.tuple:
@@ -845,9 +854,9 @@ def enum_src(t):
             d += "    },\n"
             m += "    let %s = {\n" % ident
             for f in v.fields:
-                m += "        let %s = %s;\n" % (f.name, f.manual_src())
+                m += "        let %s = %s;\n" % (rid(f.name), f.manual_src())
             m += "        construct!(%s::%s { %s })\n    };\n" % (
-                t.name, v.name, ", ".join(f.name for f in v.fields))
+                t.name, v.name, ", ".join(rid(f.name) for f in v.fields))
         else:
             ann = ["command" if v.cmd_name is None else "command(%s)" % rust_str(v.cmd_name)]
             if v.short:
@@ -873,11 +882,11 @@ def enum_src(t):
                 d += "    %s {},\n" % v.name
             m += "    let %s = {\n" % ident
             for f in v.fields:
-                m += "        let %s = %s;\n" % (f.name, f.manual_src())
+                m += "        let %s = %s;\n" % (rid(f.name), f.manual_src())
             calls = blocks_to_calls(v.blocks) if v.blocks else (
                 ".descr(%s)" % rust_str("\n".join(v.doc)) if v.doc else "")
             m += "        construct!(%s::%s { %s }).to_options()%s.command(%s)" % (
-                t.name, v.name, ", ".join(f.name for f in v.fields), calls,
+                t.name, v.name, ", ".join(rid(f.name) for f in v.fields), calls,
                 rust_str(v.cmd_name or kebab(v.name)))
             if v.short:
                 m += ".short('%s')" % v.short
